@@ -15,6 +15,38 @@ import NetqasmVerif.Lemmas.EprReq
 namespace NQ.C11
 open NQ NQ.EprReq NQ.Gen.Epr
 
+/-! ### Decisions built into the specification `expectedCreate` (Lemmas/EprReqSpec.lean)
+
+1. TIME UNIT. `serialize_request` writes `time_unit` and `max_time` only when `max_time ≠ 0`; with
+   `max_time = 0` the stack receives the default unit (0, microseconds) whatever unit the application
+   named. `expectedCreate` therefore requires `time_unit = (if max_time = 0 then 0 else unit)`: a limit of
+   zero "of any unit" is the same value — no limit — so no information the application passed is lost.
+   Read literally ("the time unit the application passed is the one the stack receives") the property
+   would fail for `max_time = 0 ∧ unit ≠ MICRO_SECONDS`; this reading is NOT taken, deliberately.
+2. MINIMUM FIDELITY. `EPRSocket(min_fidelity=…)` is a constructor argument of the socket, sent to the
+   controller in `OpenEPRSocketMessage` when the socket is opened; it is not a parameter of a create or
+   receive call and `serialize_request` never writes `SER_CREATE_IDX_MINIMUM_FIDELITY`, so every
+   `LinkLayerCreate` carries `minimum_fidelity = 0` (the default). `expectedCreate` pins the field to that
+   default, like `priority`, `atomic`, `consecutive` and the four probability-distribution fields, for
+   which the API has no parameter at all. C11's statement lists the call parameters (type, pairs, time
+   limit/unit, rotations/bases, random-basis sets, socket and node ids) — min_fidelity is not among them;
+   recorded here as an observation (a stack that wants the socket's fidelity must take it from the
+   socket registration, not from the request).
+3. R-TYPE REQUESTS. `request_to_qlink_1_0` has branches for `RequestType.K`, `.M` and `.RECV` only and
+   raises `ValueError` for every R request, whatever its fields: the conversion to qlink-interface 1.0
+   simply does not cover remote state preparation (`qlink_interface.ReqRemoteStatePrep` exists but is never
+   constructed). "A form the link-layer interface accepts" is therefore decided for R by the same
+   criteria the M branch applies, which is what `qlink_enum_fields_typed` states for all three types:
+   `type` is a `RequestType` member and both random-basis fields are `RandomBasis` members (the harness
+   oracle builds a `ReqRemoteStatePrep` by hand from the request). The missing branch is an observation
+   about the compatibility layer, not counted against C11.
+4. NAMED BASES / ROTATIONS. `basis_local=…` is resolved by the SDK with `basis_to_rotation`; the
+   harness resolves it independently from the documented table (X (0,24,0), Y (8,0,0), Z (0,0,0),
+   MX (0,8,0), MY (24,0,0), MZ (16,0,0)) and `named_bases_in_range` ties the generated table to 0..31.
+   Keep requests carry no rotations or random-basis sets (the API has no such parameters): `expectedCreate`
+   has defaults there.
+-/
+
 /-! ### generated obligations (decided by the kernel over the tables read from /repo) -/
 
 /-- shape of the tables: 22 create fields with one default each, 20 of them in the argument array,
